@@ -73,6 +73,13 @@ def kinds():
     out.append(("ident-orm-unknown:hidden_col", "int", lambda n: I("hidden_col")))
     out.append(("neg-ident", "int", lambda n: ("un", "neg", I("a"))))
     out.append(("neg-literal", "int", lambda n: ("un", "neg", T.I(7000 + n))))
+    # unary minus over the other kinds it is defined for, and nested
+    out.append(("neg-float", "float", lambda n: ("un", "neg", T.lit("float", "%d.5" % (7000 + n)))))
+    out.append(("neg-duration", "duration", lambda n: ("un", "neg", T.lit("duration", "P%dD" % (3 + n % 20)))))
+    out.append(("neg-duration-sum", "duration", lambda n: ("un", "neg", ("bin", "add", T.lit("duration", "P%dD" % (3 + n % 20)),
+                                                                      T.lit("duration", "PT1H")))))
+    out.append(("neg-neg", "int", lambda n: ("un", "neg", ("un", "neg", T.I(7000 + n)))))
+    out.append(("neg-call", "int", lambda n: ("un", "neg", T.call("length", I("s")))))
     out.append(("arith", "int", lambda n: ("bin", "add", I("a"), T.I(7000 + n))))
     out.append(("list-int", ("list", "int"), lambda n: T.lst(T.I(7000 + n), T.I(8000 + n))))
     out.append(("namedparam-call", "int", lambda n: ("call", "my.func", (("np", I("k"), T.I(7000 + n)),))))
@@ -483,6 +490,20 @@ def judge(ctx, kname, pos, t, backend, rel, unknown_field, check_leaves=True, ro
             except Exception:
                 vals = None
             want = sql_value.duration_value(durs[0][2])
+            # a unary minus written in the FILTER above the literal belongs to the maximal
+            # interval expression of the SQL as well
+            negs = 0
+            for n in T.walk(t):
+                x = n
+                while x[0] == "un" and x[1] == "neg":
+                    x = x[2]
+                    if x == durs[0]:
+                        k, y = 0, n
+                        while y[0] == "un" and y[1] == "neg":
+                            k, y = k + 1, y[2]
+                        negs = max(negs, k)
+            if want is not None and negs % 2:
+                want = tuple(-c for c in want)
             if vals is not None and want is not None:
                 ctx.count("durations_evaluated")
                 if len(vals) != 1 or vals[0] != want:
